@@ -647,6 +647,9 @@ func declStream(c *hx.Ctx, dupActive bool, report func(in *input, a, b digest, w
 		// finding dup-name-loop-report: predicted from the package alone
 		predictsDup := dupActive && !p.valid && len(p.loopOutcomes()) > 1
 		builds := repeat
+		if c.Quick() && strings.HasPrefix(p.what, "matrix") {
+			builds = repeat / 2 // each defect of the ordering shows at dozens of points of the matrix
+		}
 		if predictsDup {
 			predicted++
 			builds = 600 // one choice in eight, two or three choices deep: rare answers
